@@ -461,6 +461,12 @@ def gen_part(rng, tier="quick"):
                     d["notes"].append({"id": "g%d" % nid, "t": pos, "dur": 0, "kind": "grace", "step": rng.choice(STEPS),
                                        "alter": rng.choice([-1, 0, 0, None, 1]), "oct": rng.randint(2, 6), "voice": v_attr,
                                        "staff": staff, "grace_type": rng.choice(["grace", "acciaccatura", "appoggiatura"])})
+                    if decorated and rng.random() < 0.4:
+                        g = d["notes"][-1]
+                        if rng.random() < 0.6:
+                            g["orn"] = rng.sample(ALL_ORNAMENTS, 1)
+                        if rng.random() < 0.5:
+                            g["art"] = rng.sample(ALL_ARTICULATIONS, rng.choice([1, 2]))
                     nid += 1
                 nchord = 1 + (rng.random() < 0.25) + (rng.random() < 0.12)
                 used = set()
@@ -512,9 +518,9 @@ def build_part(d):
         import gen_score
 
         p = gen_score.build_part(d)
-        arts = {n["id"]: n["art"] for n in d.get("notes", []) if n["kind"] == "note" and n.get("art")}
+        arts = {n["id"]: n["art"] for n in d.get("notes", []) if n["kind"] in ("note", "grace") and n.get("art")}
         byid_d = {n["id"]: n for n in d.get("notes", [])}
-        for o in p.iter_all(S.Note, include_subclasses=False):
+        for o in p.iter_all(S.Note, include_subclasses=True):
             if o.id in arts:
                 o.articulations = list(arts[o.id])
             if o.id in byid_d:
@@ -533,6 +539,9 @@ def build_part(d):
             o = S.Rest(**kw)
         elif k == "grace":
             o = S.GraceNote(n.get("grace_type", "grace"), step=n["step"], octave=n["oct"], alter=n.get("alter"), **kw)
+            if n.get("art"):
+                o.articulations = list(n["art"])
+            decorate(o, n)
         else:
             o = S.Note(step=n["step"], octave=n["oct"], alter=n.get("alter"), **kw)
             if n.get("art"):
@@ -1516,7 +1525,8 @@ def bars_covered(desc):
 
 def finding_key(desc, failure):
     if failure.startswith("respell: "):
-        return "C08/respell-" + failure.split(":")[1].strip()
+        # "respell: <clause>: ..." -> the clause itself (the re-spelled file of a case shares the case's findings)
+        return "C08/" + failure.split(":")[1].strip()
     if failure.startswith("v0 "):
         # "v0 <version>: <clause>: ..." -> the clause, not the version
         return "C08/v0-" + failure.split(":")[1].strip()
